@@ -388,3 +388,71 @@ Proof.
 Qed.
 Print Assumptions c18_instance_Q.
 Print Assumptions keyq_mono.
+
+(* ---------------------------------------------------------------------- *)
+(* binary32 instance (Flocq; Proofs/CloseFlocq.v, Proofs/CloseFlocq2.v).   *)
+(* ev32 is the expression as the crate writes it, with every rounding:     *)
+(*   rd (rd (2 * rd (INR matches)) / rd (INR len)),  rd = round to nearest *)
+(* even in FLT(-149, 24); key32 is `(ratio * u32::MAX as f32) as u32`.     *)
+(* These theorems rest on the standard library's real-number axioms (see   *)
+(* Print Assumptions), which Flocq needs; no other theorem of this file    *)
+(* does.                                                                   *)
+(* ---------------------------------------------------------------------- *)
+From Coq Require Import Reals.
+From Flocq Require Import Raux.
+From Similar Require Import Proofs.CloseFlocq Proofs.CloseFlocq2.
+
+(* the two facts the generic theorems need of the float layer *)
+Theorem c18_ev32_mono :
+  forall x y : frac, frac_le x y -> Rle_bool (ev32 x) (ev32 y) = true.
+Proof. exact ev32_mono. Qed.
+Print Assumptions c18_ev32_mono.
+
+Theorem c18_key32_mono :
+  forall a b : R, Rle_bool a b = true -> (key32 a <= key32 b)%nat.
+Proof. exact key32_mono. Qed.
+Print Assumptions c18_key32_mono.
+
+Theorem c18_filters_sound_binary32 :
+  forall (A C : Type) (eqb : A -> A -> bool),
+    (forall x y : A, eqb x y = true <-> x = y) ->
+    forall (chars : C -> list A) (cutoff : R) (word c : C),
+    Rle_bool cutoff (ev32 (ratio_nd eqb (chars word) (chars c))) = true ->
+    Rle_bool cutoff (ev32 (upper_nd (length (chars word)) (length (chars c)))) = true /\
+    Rle_bool cutoff (ev32 (quick_nd eqb (chars word) (chars c))) = true.
+Proof. exact @filters_sound_ev32. Qed.
+Print Assumptions c18_filters_sound_binary32.
+
+Theorem c18_close_matches_binary32 :
+  forall (A C : Type) (eqb : A -> A -> bool),
+    (forall x y : A, eqb x y = true <-> x = y) ->
+    forall (chars : C -> list A) (leC : C -> C -> bool),
+    (forall a b c : C, leC a b = true -> leC b c = true -> leC a c = true) ->
+    (forall a b : C, leC a b = true \/ leC b a = true) ->
+    (forall a b : C, leC a b = true -> leC b a = true -> a = b) ->
+    forall (cutoff : R) (word : C) (cands : list C) (n : nat) (ranked : list C),
+    let ratio := fun c : C => ev32 (ratio_nd eqb (chars word) (chars c)) in
+    Permutation ranked (filter (fun c : C => Rle_bool cutoff (ratio c)) cands) ->
+    StronglySorted
+      (fun a b : C =>
+         (key32 (ratio b) < key32 (ratio a))%nat \/
+         (key32 (ratio a) = key32 (ratio b) /\ leC a b = true)) ranked ->
+    close_matches_gen eqb chars ev32 Rle_bool key32 leC cutoff word cands n = firstn n ranked.
+Proof. exact @close_matches_ev32. Qed.
+Print Assumptions c18_close_matches_binary32.
+
+(* the run-time checker recomputes a ratio as binary32(binary64(2m) / binary64(len))
+   (OCaml has no single-precision arithmetic): for len < 2^24 this is exactly ev32 *)
+Theorem c18_driver_ratio_eq :
+  forall m len : nat,
+    (0 < len)%nat -> (len < 2 ^ 24)%nat -> (m <= len)%nat ->
+    driver_ratio m len = ev32 (Some (m, len)).
+Proof. exact driver_ratio_eq_nat. Qed.
+Print Assumptions c18_driver_ratio_eq.
+
+Theorem c18_double_rounding_div :
+  forall a b : Z,
+    (0 <= a <= 2 ^ 24)%Z -> (0 < b <= 2 ^ 24)%Z ->
+    rd (rd64 (IZR a / IZR b)%R) = rd (IZR a / IZR b)%R.
+Proof. exact double_rounding_div. Qed.
+Print Assumptions c18_double_rounding_div.
